@@ -190,6 +190,9 @@ def run_chain(case, ctx):
     else:
         src = conv.build_source(case['src'], scratch)
         cur = scratch.file('s0.sgz')
+        from .. import gen as _gen
+        if case['detection'] == 'heuristic' and not _gen.heuristic_precondition(src['headers']):
+            case = dict(case, detection='thorough')       # outside the heuristic's precondition headers may legitimately differ (C04)
         conv.convert_segy(src['path'], cur, rate, bs, detection=case['detection'])
         truth = truth_for(src, rate, bs, case['detection'], '3d')
         truth['bs'] = conv.resolve_bs(rate, bs)
